@@ -79,10 +79,11 @@ Section Generic.
   Variable numtxt : num -> string.
   Variable O : oracles.
   Variable w : nat.
+  Variable orl : expr -> string -> list item.
   Notation pt := (print_text fx pol numtxt).
   Notation pi := (print_items fx pol numtxt).
   Notation fsi := (fsl_items O pi key_item).
-  Notation fi := (fmt_items O pi key_item w).
+  Notation fi := (fmt_items O pi key_item true orl w).
   Notation fd := (fmtd O w).
 
   (* the interface: what the formatter's imports must be for the theorem *)
@@ -306,7 +307,7 @@ Section Generic.
   Qed.
 
   (* ---------------------------------------------------------------- items: every layout *)
-  Lemma fmt_items_unfold : forall e i, fi e i = impl_items O pi key_item w fd fi e i.
+  Lemma fmt_items_unfold : forall e i, fi e i = impl_items O pi key_item true orl w fd fi e i.
   Proof. intros e i. destruct e; reflexivity. Qed.
 
   (* A e: the layouts of e denote print_items e; B e: so does e as the else-branch of a conditional *)
@@ -493,7 +494,7 @@ Section Generic.
         cbn [wf] in Hwf. apply andb_prop in Hwf. destruct Hwf as [Hwl Hwr].
         cbn [lam_ok] in Hl. apply andb_prop in Hl. destruct Hl as [Hll Hlr].
         destruct (IHl Hwl Hll) as [Al _]. destruct (IHr Hwr Hlr) as [Ar _].
-        cbn [print_items]. rewrite HL, HR, !Al, !Ar.
+        cbn [print_items negb andb]. rewrite HL, HR, !Al, !Ar.
         repeat match goal with |- context [if ?b then _ else _] => destruct b end; reflexivity. }
       split; [exact HA | apply B_of_A; [not_cond | exact HA]].
     - (* EUn *)
@@ -542,32 +543,32 @@ Section Generic.
 End Generic.
 
 (* ------------------------------------------------------------------ the printer of Printer.v *)
-Theorem layout_preserves_items : forall oi fx numtxt keepc w e i,
+Theorem layout_preserves_items : forall oi fx numtxt keepc orl w e i,
   fx_dominus fx = true ->
   wf e = true -> lam_ok e = true ->
   fmt_items (printer_oracles fx (policy_new oi) numtxt keepc)
-            (print_items fx (policy_new oi) numtxt) key_item w e i
+            (print_items fx (policy_new oi) numtxt) key_item true orl w e i
   = print_items fx (policy_new oi) numtxt e.
 Proof.
-  intros oi fx numtxt keepc w e i Hd Hw Hl.
+  intros oi fx numtxt keepc orl w e i Hd Hw Hl.
   apply layout_items_generic; try assumption; try reflexivity.
 Qed.
 
-Theorem layout_preserves_stmt_items : forall oi fx numtxt keepc w e i,
+Theorem layout_preserves_stmt_items : forall oi fx numtxt keepc orl w e i,
   fx_dominus fx = true ->
   wf (stmt_body e) = true -> lam_ok e = true ->
   fmt_items (printer_oracles fx (policy_new oi) numtxt keepc)
-            (print_items fx (policy_new oi) numtxt) key_item w e i
+            (print_items fx (policy_new oi) numtxt) key_item true orl w e i
   = stmt_items fx (policy_new oi) numtxt e.
 Proof.
-  intros oi fx numtxt keepc w e i Hd Hw Hl.
+  intros oi fx numtxt keepc orl w e i Hd Hw Hl.
   apply layout_stmt_items_generic; try assumption; try reflexivity.
 Qed.
 
 (* the pinned printer (policy_old) is covered by the generic theorem too, except that its callee
    rule (pC = is_lambda) is not the needs_parens_in_postfix the formatter asks: outside that, i.e.
    for ANY oracle record with the stated interface *)
-Theorem layout_preserves_items_any_oracle : forall fx pol numtxt O w e i,
+Theorem layout_preserves_items_any_oracle : forall fx pol numtxt O orl w e i,
   fx_dominus fx = true ->
   (forall op c, o_needs_parens O op c true = pL pol op c) ->
   (forall op c, o_needs_parens O op c false = pR pol op c) ->
@@ -578,20 +579,20 @@ Theorem layout_preserves_items_any_oracle : forall fx pol numtxt O w e i,
   (forall c, o_unary_parens O c = pU pol c) ->
   (forall e, lead3 (o_e2s O e) = lead3 (print_text fx pol numtxt e)) ->
   wf e = true -> lam_ok e = true ->
-  fmt_items O (print_items fx pol numtxt) key_item w e i = print_items fx pol numtxt e.
+  fmt_items O (print_items fx pol numtxt) key_item true orl w e i = print_items fx pol numtxt e.
 Proof. intros. apply layout_items_generic; assumption. Qed.
 
 (* composing with the round trip of the one-line printer (PrintRT.new_policy_roundtrip_fun) *)
-Theorem format_roundtrip_items : forall oi fx numtxt keepc w e i,
+Theorem format_roundtrip_items : forall oi fx numtxt keepc orl w e i,
   opinfo_consistent oi spec_bprec spec_rassoc = true ->
   fx_dominus fx = true ->
   wf e = true -> lam_ok e = true ->
   exists n, forall m, n <= m ->
     parse_items impl_table infix_map prefix_map m
       (fmt_items (printer_oracles fx (policy_new oi) numtxt keepc)
-                 (print_items fx (policy_new oi) numtxt) key_item w e i) = Ok (Some e).
+                 (print_items fx (policy_new oi) numtxt) key_item true orl w e i) = Ok (Some e).
 Proof.
-  intros oi fx numtxt keepc w e i Hc Hd Hw Hl.
-  rewrite (layout_preserves_items oi fx numtxt keepc w e i Hd Hw Hl).
+  intros oi fx numtxt keepc orl w e i Hc Hd Hw Hl.
+  rewrite (layout_preserves_items oi fx numtxt keepc orl w e i Hd Hw Hl).
   apply new_policy_roundtrip_fun; assumption.
 Qed.
